@@ -447,11 +447,17 @@ func checkC10(c *Check, p *Program) {
 	c.Exact("C10.K3", "go sites of serve", nGoServe, 1, "")
 	// wait.Done deferred in serve: C09.H8 shape, re-checked here
 	doneDef := false
-	instrsOf(t.serve, func(in ssa.Instruction) {
-		if d, ok := in.(*ssa.Defer); ok && funcIs(calleeObj(d), "sync", "WaitGroup", "Done") && fieldOfAddr(callRecv(d)) == a.wait && !inAnyLoop(d.Block()) && d.Block() == t.serve.Blocks[0] {
-			doneDef = true
-		}
-	})
+	for _, hf := range append([]*ssa.Function{t.serve}, t.serve.AnonFuncs...) {
+		instrsOf(hf, func(in ssa.Instruction) {
+			ci, ok := in.(ssa.CallInstruction)
+			if !ok || !funcIs(calleeObj(ci), "sync", "WaitGroup", "Done") || fieldOfAddr(callRecv(ci)) != a.wait {
+				return
+			}
+			if d := deferredIn(t.serve, in); d != nil && !inAnyLoop(d.Block()) && d.Block() == t.serve.Blocks[0] {
+				doneDef = true
+			}
+		})
+	}
 	c.Decide(doneDef, "C10.K3", FuncName(t.serve)+" defers wait.Done()", p.Pos(t.serve.Pos()), "deferred in the entry block", "serve does not defer wait.Done() at entry: Close can block for ever in Wait")
 
 	// ---- K4 single closer
@@ -461,8 +467,8 @@ func checkC10(c *Check, p *Program) {
 		key := fieldKey(f)
 		c.Exact("C10.K4", "close sites of "+key, len(ops), 1, "")
 		for _, op := range ops {
-			_, isDefer := op.Instr.(*ssa.Defer)
-			c.Decide(isDefer && op.Fn == t.serve && !inAnyLoop(op.Instr.Block()), "C10.K4", key+" closed by serve's defer", p.InstrPos(op.Instr), "deferred, once, in the once-per-client serve goroutine", "the channel is closed outside serve's deferred exit (double close, or close while serve still sends)")
+			d := deferredIn(t.serve, op.Instr)
+			c.Decide(d != nil && !inAnyLoop(d.Block()), "C10.K4", key+" closed by serve's defer", p.InstrPos(op.Instr), "deferred, once, in the once-per-client serve goroutine", "the channel is closed outside serve's deferred exit (double close, or close while serve still sends)")
 			closedFields[f] = true
 		}
 	}
@@ -549,7 +555,7 @@ func checkC10(c *Check, p *Program) {
 			}
 		})
 	}
-	c.Floor("C10.K5", "blocking points in Tunnel methods", nBlock, 8)
+	c.Floor("C10.K5", "blocking points in Tunnel methods", nBlock, 6)
 
 	// K6
 	nSend := 0
